@@ -107,3 +107,70 @@ impl Future for YieldNow {
         Poll::Ready(())
     }
 }
+
+/// Safe façades over crate-private sequential data structures (V1).
+pub mod pq {
+    use crate::util::indexed_priority_queue::{IndexedPriorityQueue, InsertKey};
+    use crate::util::priority_queue::PriorityQueue;
+
+    /// The scheduler's priority queue with `u64` keys and values.
+    pub struct Pq(PriorityQueue<u64, u64>);
+
+    impl Default for Pq {
+        fn default() -> Self {
+            Self::new()
+        }
+    }
+
+    impl Pq {
+        pub fn new() -> Self {
+            Self(PriorityQueue::new())
+        }
+        pub fn insert(&mut self, key: u64, value: u64) {
+            self.0.insert(key, value)
+        }
+        pub fn pull(&mut self) -> Option<(u64, u64)> {
+            self.0.pull()
+        }
+        pub fn peek(&self) -> Option<(u64, u64)> {
+            self.0.peek().map(|(k, v)| (*k, *v))
+        }
+    }
+
+    /// The keyed priority queue with `u64` keys and values.
+    pub struct Ipq(IndexedPriorityQueue<u64, u64>);
+
+    impl Default for Ipq {
+        fn default() -> Self {
+            Self::new()
+        }
+    }
+
+    impl Ipq {
+        pub fn new() -> Self {
+            Self(IndexedPriorityQueue::new())
+        }
+        pub fn len(&self) -> usize {
+            self.0.len()
+        }
+        pub fn is_empty(&self) -> bool {
+            self.0.len() == 0
+        }
+        pub fn insert(&mut self, key: u64, value: u64) -> (usize, u64) {
+            self.0.insert(key, value).into_raw_parts()
+        }
+        pub fn pull(&mut self) -> Option<(u64, u64)> {
+            self.0.pull()
+        }
+        pub fn peek(&self) -> Option<(u64, u64)> {
+            self.0.peek().map(|(k, v)| (*k, *v))
+        }
+        pub fn peek_key(&self) -> Option<u64> {
+            self.0.peek_key().copied()
+        }
+        pub fn extract(&mut self, insert_key: (usize, u64)) -> Option<(u64, u64)> {
+            self.0
+                .extract(InsertKey::from_raw_parts(insert_key.0, insert_key.1))
+        }
+    }
+}
